@@ -33,6 +33,22 @@
 (* COVERAGE LAYER (drift): every observed outcome is one of the outcomes   *)
 (* reachable in the faithful MultiParse model; new_with_schemata behaves   *)
 (* like in-order resolution.                                               *)
+(*                                                                         *)
+(* WITH THE PROPOSED HOOK (proposed/C20-parser-hook.patch, cargo feature   *)
+(* verif-hooks; not needed by this check): the crate reports Pick(name),   *)
+(* FetchRef(name, hit) and Register(name, overwrote) to a thread-local sink*)
+(* and asks a thread-local oracle which pending input to drain next.  The  *)
+(* harness would then (1) replay every pick order TLC explored (the `picks`*)
+(* history of MC_MultiParse) instead of repeating calls with fresh hash    *)
+(* seeds, and (2) record the events of every call; this module would get a *)
+(* second kind of line {ev:"call", picks, log, status, res} judged by      *)
+(*    FoldPicks(InitState(scn, "faithful") with trace = TRUE, picks)       *)
+(* = the state reached by PickStep along `picks`: its .log (events "pick", *)
+(* "fetch" with how = parsed/resolving/input/miss, "register" with how =   *)
+(* new/overwrite) must equal the recorded log (coverage layer: the call is *)
+(* a behaviour of MultiParse), and the verdict clauses above apply to every*)
+(* pick order separately, which turns "order dependence missed with        *)
+(* probability < 1e-8" into "no pick order missed".                        *)
 (***************************************************************************)
 EXTENDS MultiParse, AvroBinary, Json, IOUtils, Known
 
@@ -164,7 +180,7 @@ Judge(e) ==
       failObs  == UNION {IF Expl(obs[k]) = {} THEN {Clause(obs[k])} ELSE {} : k \in bad}
       knownObs == UNION {{id \o "|" \o Clause(obs[k]) : id \in Expl(obs[k])} : k \in bad}
       (* ---- determinism over permutations and runs ---- *)
-      nondet == \E a, b \in K : ~SameOutcome(obs[a], obs[b])
+      nondet == \E a \in K : ~SameOutcome(obs[1], obs[a])          \* SameOutcome is an equivalence
       orderIds == (IF D1 \in KnownIds /\ NestedRefShape(scn) THEN {D1} ELSE {})
                   \cup (IF D2 \in KnownIds /\ NestedDupShape(scn) THEN {D2} ELSE {})
                   \cup (IF D3 \in KnownIds /\ WrapperRefShape(scn) THEN {D3} ELSE {})
@@ -188,7 +204,9 @@ Judge(e) ==
                    : k \in 1..Len(e.dat) }
       (* ---- coverage layer ---- *)
       reach == AllOutcomes(scn, "faithful")
-      drift == If(\A k \in K : \E r \in reach : IsOutcome(obs[k], r), "outcome-not-in-faithful-model")
+      (* once the panic is repaired (finding no longer "known"), the faithful model's panic is an error *)
+      Adj(r) == IF r.status = "panic" /\ D3 \notin KnownIds THEN OutcomeErr ELSE r
+      drift == If(\A k \in K : \E r \in reach : IsOutcome(obs[k], Adj(r)), "outcome-not-in-faithful-model")
                \cup If(\A k \in K : obs[k].status # "ok" \/ obs[k].resolved = "panic"
                                     \/ obs[k].resolved = ResolveModel(e.form, obs[k]),
                        IF NullNsInsideNs(scn) THEN "resolve-requalifies-null-namespace-name"
